@@ -126,6 +126,7 @@ Inductive op :=
 | OpNew (id : nat) (k : okind) (how : newhow) (key iv : darg)
 | OpFromState (id : nat) (enc : bool) (key iv : darg) (pos : nat + nat)   (* inl literal | inr ref *)
 | OpClone (id newid : nat)
+| OpCloneFrom (dst src : nat)
 | OpDrop (id : nat)
 | OpBlk (id : nat) (p : place)
 | OpBlks (id : nat) (p : place)
@@ -156,6 +157,24 @@ Definition res_bytes (r : res) : list N :=
 
 Definition get_data (rs : list res) (d : darg) : list N :=
   match d with DLit l => l | DRef k => res_bytes (nth k rs RUnsupported) end.
+
+Definition bkind_eqb (a b : bkind) : bool :=
+  match a, b with
+  | KCbcE, KCbcE | KCbcD, KCbcD | KPcbcE, KPcbcE | KPcbcD, KPcbcD | KIgeE, KIgeE | KIgeD, KIgeD
+  | KCfbE, KCfbE | KCfbD, KCfbD | KCfb8E, KCfb8E | KCfb8D, KCfb8D | KOfbE, KOfbE | KOfbD, KOfbD => true
+  | _, _ => false
+  end.
+Definition skind_eqb (a b : skind) : bool :=
+  match a, b with
+  | SCtr c1 b1, SCtr c2 b2 => (c1 =? c2) && Bool.eqb b1 b2
+  | SOfb, SOfb | SBelt, SBelt => true
+  | _, _ => false
+  end.
+Definition cts_variant_eqb (a b : cts_variant) : bool :=
+  match a, b with
+  | CbcCs1, CbcCs1 | CbcCs2, CbcCs2 | CbcCs3, CbcCs3 | EcbCs1, EcbCs1 | EcbCs2, EcbCs2 | EcbCs3, EcbCs3 => true
+  | _, _ => false
+  end.
 
 Definition store := list (nat * obj).
 Fixpoint lookup (s : store) (id : nat) : option obj :=
@@ -204,6 +223,21 @@ Section Run.
         | Some (OCore SBelt _ _) | Some (OWrap SBelt _ _) => (s, RUnsupported)    (* not Clone *)
         | Some ob => (update s newid ob, ROk)
         | None => (s, RUnsupported)
+        end
+    | OpCloneFrom dst src =>
+        (* dst.clone_from(&src): both exist and have the same type; dst becomes a copy of src *)
+        match lookup s dst, lookup s src with
+        | Some (OBlock k1 _ _), Some (OBlock k2 key st) =>
+            if bkind_eqb k1 k2 then (update s dst (OBlock k2 key st), ROk) else (s, RUnsupported)
+        | Some (OBuf e1 _ _ _), Some (OBuf e2 key iv pos) =>
+            if Bool.eqb e1 e2 then (update s dst (OBuf e2 key iv pos), ROk) else (s, RUnsupported)
+        | Some (OCore k1 _ _), Some (OCore k2 key st) =>
+            if skind_eqb k1 k2 && negb (skind_eqb k2 SBelt) then (update s dst (OCore k2 key st), ROk) else (s, RUnsupported)
+        | Some (OWrap k1 _ _), Some (OWrap k2 key wst) =>
+            if skind_eqb k1 k2 && negb (skind_eqb k2 SBelt) then (update s dst (OWrap k2 key wst), ROk) else (s, RUnsupported)
+        | Some (OCts v1 _ _), Some (OCts v2 key iv) =>
+            if cts_variant_eqb v1 v2 then (update s dst (OCts v2 key iv), ROk) else (s, RUnsupported)
+        | _, _ => (s, RUnsupported)
         end
     | OpDrop id => (remove_id s id, ROk)
     | OpBlk id p =>
